@@ -109,6 +109,7 @@ DEFAULT_PROFILE: dict[str, Any] = {
     "multipart_const": True,        # was a C06 crash (fixed); switch kept for the regression replay
     "prefix_items": False,          # tuple-like arrays written with 3.1 prefixItems (+ items)
     "quote_enum_values": False,     # string enum values containing quote characters, braces, backticks
+    "const_everywhere": False,      # const schemas also as parameters, bodies, responses, array items and union members
 }
 
 
@@ -155,7 +156,7 @@ def schema_ir(draw, prof, comp_names: list[str], depth: int = 0, position: str =
         choices.append("any")
     if prof["enum"]:
         choices += ["enum", "enum"]
-    if prof["const"] and position in ("prop",):
+    if prof["const"] and (position in ("prop",) or (prof.get("const_everywhere") and position in ("param", "response", "body", "item", "member"))):
         choices.append("const")
     if prof["ref"] and comp_names:
         choices += ["ref", "ref", "ref"]
@@ -499,7 +500,11 @@ def param_schema(draw, prof, loc: str, comp_names) -> dict:
         kinds.append("uuid")
     if loc == "cookie" and prof["cookie_nonstring"]:
         kinds += ["int", "bool", "uuid", "date"]
+    if prof.get("const_everywhere") and loc in ("query", "path", "cookie"):
+        kinds.append("const")
     k = draw(st.sampled_from(kinds))
+    if k == "const":
+        return draw(const_ir(prof))
     if k == "enum":
         return draw(enum_ir(profile(**{**prof, "null_in_enum": False}), allow_null=False))
     if k == "enum_str":
@@ -579,7 +584,7 @@ def body_ir(draw, prof, comp_names, obj_names):
     for kd in chosen:
         if kd == "json":
             mt = draw(st.sampled_from(["application/json", "application/vnd.api+json"]))
-            sch = draw(schema_ir(profile(**{**prof, "const": False, "union": False}), obj_names or comp_names, 1, "body"))
+            sch = draw(schema_ir(profile(**{**prof, "const": bool(prof.get("const_everywhere")), "union": False}), obj_names or comp_names, 1, "body"))
             if sch["k"] in ("any",):
                 sch = {"k": "str"}
             sch.pop("nullable", None)
@@ -626,7 +631,7 @@ def responses_ir(draw, prof, comp_names):
             out.append([s, None])
         elif r <= 7:
             mt = draw(st.sampled_from(["application/json", "application/json", "application/problem+json"]))
-            sch = draw(schema_ir(profile(**{**prof, "const": False}), comp_names, 1, "response"))
+            sch = draw(schema_ir(profile(**{**prof, "const": bool(prof.get("const_everywhere"))}), comp_names, 1, "response"))
             sch.pop("nullable", None)
             if prof.get("odd_media_pairs") and draw(st.integers(0, 11)) == 0:
                 sch = {"k": "binary"}
